@@ -277,7 +277,17 @@ type solveResult struct {
 	Output string
 }
 
+// procSem bounds the number of solver processes running at once, so that each has a core to
+// itself and wall-clock time limits mean what they say (the sandbox has 16 cores).
+var procSem = make(chan struct{}, 14)
+
 func runSolver(ctx context.Context, s solverSpec, timeoutS int, file string) solveResult {
+	select {
+	case procSem <- struct{}{}:
+		defer func() { <-procSem }()
+	case <-ctx.Done():
+		return solveResult{Status: "cancelled", Solver: s.Name}
+	}
 	args := s.Args(timeoutS, file)
 	start := time.Now()
 	cctx, cancel := context.WithTimeout(ctx, time.Duration(timeoutS+2)*time.Second)
@@ -332,8 +342,8 @@ var noRetry bool
 
 func dischargeAll(obls []*Obligation, outDir string, timeoutS int, par int) {
 	_ = os.MkdirAll(outDir, 0o755)
-	if par > 6 {
-		par = 6 // each job races three solver processes
+	if par > 8 {
+		par = 8 // jobs in flight; the number of solver processes is bounded separately by procSem
 	}
 	sem := make(chan struct{}, par)
 	var wg sync.WaitGroup
@@ -373,7 +383,7 @@ func dischargeAll(obls []*Obligation, outDir string, timeoutS int, par int) {
 	// are retried two at a time with a doubled time limit
 	sem2 := make(chan struct{}, 2)
 	for _, j := range jobs {
-		if j.o.Status != "unknown" || noRetry {
+		if j.o.Status != "unknown" || noRetry || j.o.Kind == "vacuity" {
 			continue
 		}
 		wg.Add(1)
@@ -397,6 +407,16 @@ func runJob(j *solveJob, timeoutS int) {
 	o := j.o
 	total := 0.0
 	start := time.Now()
+	if o.Kind == "vacuity" {
+		// a contradiction among the hypotheses is found quickly or not at all; only `unsat` matters here
+		last := len(j.vars) - 1
+		r, _ := race(j.files[last], 3)
+		o.Status, o.Solver, o.Time = r.Status, r.Solver+"/vacuity", r.Time
+		if r.Status != "unsat" && r.Status != "sat" {
+			o.Status = "unknown"
+		}
+		return
+	}
 	// stage 1: the first variant alone (quantifier-free hypotheses, or the only variant)
 	first := j.vars[0]
 	t1 := timeoutS
